@@ -337,6 +337,9 @@ def run(chk):
     from . import rules_C12, report
 
     report.include_rules(chk, r4, rules_C12, ("C12.R2",), "HashClient reads reach only servers the hasher currently has in rotation")
+    from . import rules_C13
+
+    report.include_rules(chk, r4, rules_C13, ("C13.R5",) + (("C13.R7",) if getattr(chk, "included_for", None) is None else ()), "with ignore_exc nothing escapes a HashClient read in any failover state: not the failing server's error, not an error of the bookkeeping or of a revival probe")
     report.include_rules(chk, r4, rules_C12, ("C12.R3",), "a multi-key read contacts each server once: a second batch for a server that has just been taken out of rotation fails outside the handler that turns failures into misses")
     chk.assume("exceptions raised by HashClient's own bookkeeping inside the failover handlers are otherwise not decided here (C13)")
     chk.assume("input validation errors (MemcacheIllegalInputError) are not server/network failures and may be raised")
